@@ -69,9 +69,9 @@ META["C04"] = {
   "note": "Level `other`: proved / cited / bounded parts are itemised in the evidence; bounded results are never counted as discharged.",
   "technique": TECH}
 META["C09"] = {
-  "text": "Proved: frame obligations of all predict methods (KNN-supervised and unsupervised predict modify no model state at all; supervised predict only relevance flags, which it never reads), the per-sample characterisations C03/C14 for an arbitrary loop position, and the absence of global state / RNG reads. The residual (position-independent tie-breaking) is covered by a bounded relational run-time contract: same sample alone, at every batch position, with duplicates, and after earlier calls, on all four model kinds.",
-  "design_ref": "DESIGN.md §3 C09",
-  "note": "Level `other`: a relational lockstep proof was not built; the deductive part is the frame + functional characterisation.",
+  "text": "Proved: frame obligations of all predict methods (KNN-supervised and unsupervised predict modify no model state at all; supervised predict only relevance flags, which it never reads), the per-sample characterisations C03/C14 for an arbitrary loop position, the absence of global state / RNG reads, and - for the supervised / semi-supervised predict - a FUNCTIONAL characterisation (label of the first minimiser of max(cost, distance) in conquest order, with a ghost winner position) from which the relational postcondition `position_independent` is discharged: two queries of one batch that present the same sample get the same label. The residual (position-independent tie-breaking of the KNN-supervised / unsupervised predict) is covered by a bounded relational run-time contract: same sample alone, at every batch position, with duplicates, and after earlier calls, on all four model kinds.",
+  "design_ref": "DESIGN.md §3 C09, §7",
+  "note": "Level `other`: the functional characterisation is proved for one of the two predict families only; across calls the argument is frame + same function (pencil).",
   "technique": TECH}
 META["C20"] = {
   "text": "confusion_matrix, opf_accuracy, opf_accuracy_per_label and purity are under contract with recursive spec counters (pairs, false positives, false negatives, class and group sizes) and a recursively DEFINED real sum; loop invariants equate the accumulators with the counters, the vector statements go through assumed numpy contracts, and eight lemmas proved by emitted induction queries (counter bounds, pair counter vs. group size with equality iff the group is pure, group sizes add up to N by a double induction, monotonicity and zero test of sums) give the rest: the accuracy formula, its range [0, 1] and 'equals 1 iff all predictions are correct' are discharged for every K >= 2 and every length; recall, the purity formula, purity in (0, 1] and 'purity = 1 iff every predicted group is single-class' for every K. normalize is a static shape obligation. K = 1 for opf_accuracy and numeric normalize values are bounded run-time contracts against brute-force definitions.",
